@@ -111,10 +111,9 @@ class Coverage:
         return self._region_coverage[gene, region]
 
     def average_coverage(self) -> float:
-        """:returns: Average coverage of the gene."""
-        return sum(self.total(pos) for pos in self._coverage) / float(
-            len(self._coverage) + 0.1
-        )
+        """:returns: Average coverage of the gene (and pseudogene) regions."""
+        locus = [pos for pos in self._coverage if self.gene.region_at(pos)]
+        return sum(self.total(pos) for pos in locus) / float(len(locus) + 0.1)
 
     def dump(self, out=None):
         """Pretty-print the coverage data."""
